@@ -280,6 +280,29 @@ theorem auto_energy_eq_uhf_energy (H : Ham m g K)
     rw [← AfqmcVerif.Props.C01.uhf_overlap_is_bra]; rfl
   rw [hf]
 
+/-- the Hamiltonian the restricted entry points see: both spin blocks of `h1` replaced by their average -/
+def spinAveraged (H : Ham m g K) : Ham m g K :=
+  { h0 := H.h0, ha := (2 : K)⁻¹ • (H.ha + H.hb), hb := (2 : K)⁻¹ • (H.ha + H.hb), L := H.L }
+
+/-- **restricted entry point of the AD kinds** (`_calc_energy_restricted`; CISD, CISD_THC use only this one): the walker `W`
+serves as both spin blocks and `h1` is replaced by its spin average.  For a spin-symmetric bra (`G a b = G b a`, which a
+restricted trial is) the result is the mixed estimator of the *true*, possibly spin-dependent Hamiltonian on `[W, W]`. -/
+theorem auto_energy_restricted {ι : Type} [Fintype ι] (c : ι → K) (ea eb : ι → Fin k → Fin m)
+    (H : Ham m g K) (W : Matrix (Fin m) (Fin k) K) (h2 : (2 : K) ≠ 0)
+    (hsym : ∀ a b : Matrix (Fin m) (Fin k) K, bra c ea eb a b = bra c ea eb b a) :
+    autoEnergy (spinAveraged H) (bra c ea eb) W W = specEnergy2 H (bra c ea eb) W W := by
+  rw [auto_energy_is_mixed_estimator c ea eb (spinAveraged H) W W h2]
+  unfold specEnergy2 spinAveraged
+  simp only
+  congr 3
+  rw [ob2_smul, ob2_add]
+  have e : ∀ O : Matrix (Fin m) (Fin m) K, (∑ j, bra c ea eb W (repl W O j)) = ∑ j, bra c ea eb (repl W O j) W :=
+    fun O => sum_congr rfl fun j _ => hsym _ _
+  unfold ob2
+  simp only [e]
+  field_simp
+  ring
+
 /-- non-vacuity: a two-term bra on a 2-orbital, (1,1)-electron walker, one-body path evaluated at a concrete point -/
 example : bra (m := 2) (ka := 1) (kb := 1) (fun _ : Fin 2 => (1 : ℚ)) (fun i _ => i) (fun i _ => i) !![1; 2] !![3; 4] = 11 := by
   simp [bra, Fin.sum_univ_two, Matrix.det_unique]; norm_num
